@@ -11,7 +11,11 @@ tie:     harness/gen_sharing.py (tables, measured variant) + suite `streams`
          draw log (which generator object served which decision)
 search:  digests across independent interpreter sessions (PYTHONHASHSEED, global seeds,
          decoys), pairwise coinciding streams, ownership of every draw — on the real code,
-         with oracles that come from the property statement
+         with oracles that come from the property statement; proposals / births / nested
+         inner proposals that were used (generator read, jump, logpdf, birth, update) before
+         the sampler got them, and re-used for a second sampler: the run must equal the run
+         with untouched objects, whatever generator the objects had before (the sessions run
+         the code under test unpatched: verified in every session)
 """
 import streams
 
@@ -23,13 +27,18 @@ def run(chk, tier, proof_ok):
                         'gives equal numbers (trusted)',
                         'determinism of run() given the built object graph is not an obligation of the pure model; '
                         'it is exercised by the cross-session digests']
+    # the independent interpreter sessions run while this process does the correspondence
+    started = streams.c04_sessions_start(chk, tier)
     n = 60 if tier == 'quick' else 600
     divs, findings = streams.correspondence(chk, n, info['variant'])
     # the search always runs (a failing input on the real code is a violation whether or not the
     # model noticed); in full as soon as a proof obligation or the correspondence is broken
     full = tier if (proof_ok and not divs) else 'thorough'
-    findings += streams.c04_search(chk, full)
     findings += streams.c04_inprocess(chk, full)
+    found = streams.c04_search(chk, tier, started)
+    if full != tier and not found:
+        found = streams.c04_search(chk, full)
+    findings += found
     streams.report(chk, proof_ok, divs, findings)
 
 
